@@ -67,6 +67,25 @@ func buildReplay(eng *Engine, repo, pid string, sm *oblSummary, path string) str
 			rf.SMT = smt
 		}
 	}
+	if sm.Status != "refuted" && sm.Candidate != "" {
+		// undecided, but a candidate input exists (found without the quantified facts): only a failing replay counts
+		if b, ok := replayBuilders[sm.Func]; ok {
+			vals := parseValues(sm.Candidate)
+			if dir, name, src, ok := b(vals, sm); ok {
+				failed, out := runOverlayTest(repo, dir, name, src)
+				if failed {
+					rf.Values = vals
+					rf.PkgDir, rf.TestName, rf.TestSrc = dir, name, src
+					rf.Output = out
+					rf.Result = "confirmed"
+					rf.Detail += " (solver undecided; a candidate input found without the quantified facts fails on the real code)"
+					data, _ := json.MarshalIndent(rf, "", " ")
+					os.WriteFile(path, append(data, '\n'), 0o644)
+					return "confirmed"
+				}
+			}
+		}
+	}
 	if sm.Status != "refuted" {
 		// no solver model: a witness attached to this obligation (written with the contract) is tried instead
 		if b, ok := witnessBuilders[sm.Name]; ok {
